@@ -215,6 +215,13 @@ impl RecGen {
                 rng.usize(1500, 9000)
             };
             let alpha = ALPHAS[rng.weighted(&self.alpha_w)];
+            // a homopolymer / short repeat beyond 65 535 bases pushes one k-mer's
+            // multiplicity past 16 bits
+            let len = if matches!(alpha, Alpha::Homopolymer | Alpha::Repeat) && rng.chance(1, 2) {
+                rng.usize(66000, 70000)
+            } else {
+                len
+            };
             out[i].seq = gen_seq(rng, len, alpha);
         }
         out
